@@ -42,6 +42,14 @@ def gen_doc(rng, uid, indent):
         return None, 0, False
     if r < 0.3:
         return pad + 'Only prose, no examples. (%d)' % uid, 0, False
+    if r < 0.38:
+        # a block that freeform collection skips (header ending in Ignore: / DisableDoctest: ...) in front of the real example,
+        # or behind it: still exactly one freeform doctest
+        hdr = rng.choice(['Ignore:', 'DisableDoctest:', 'SkipDoctest:', 'DisableExample:'])
+        skipped = [pad + hdr, pad + '    >>> print("not collected %d")' % uid, pad + '    never compared', '']
+        real = [pad + 'Freeform %d.' % uid, '', pad + '>>> print(%d)' % uid, pad + '%d' % uid, '']
+        parts = (skipped + [pad + 'Prose in between.', ''] + real) if rng.random() < 0.6 else (real + skipped)
+        return '\n'.join(parts), 0, True
     if r < 0.6:
         return '\n'.join([pad + 'Freeform %d.' % uid, '', pad + '>>> print(%d)' % uid, pad + '%d' % uid]), 0, True
     nblocks = rng.randint(1, 3)
